@@ -25,6 +25,7 @@ EXPLANATION = (
     "object before the transport write, because a failed send calls error_received synchronously (R4). Counter values over "
     "histories and OS behaviour are not decided."
     ' (R5) no class of the InverterError family is a subclass of an exception class that a handler of the protocol layer catches as a network error (OSError, CancelledError, TimeoutError); call-arity TypeErrors are exception sources; a failure kind that no longer reaches its counting handler in _read_from_socket is a violation.'
+    ' Indexing text decoded from a response at a fixed position is an IndexError source unless a length test guards it.'
 )
 
 DOCUMENTED_EXPLICIT = ("ValueError", "NotImplementedError")
